@@ -350,6 +350,9 @@ Run(i, w) ==
       [] s.k = "pullit" -> LET r == Adv(2, SetK(w, i, k1)) IN
                            IF Panicked(r.w) THEN [st |-> "panic", w |-> r.w]
                            ELSE Run(i, Log(r.w, <<"e", s.id, IF r.ok THEN r.w.cos[2].cur ELSE 0 - 1, 0>>))
+      \* it2 := D2(r, 7, b): a SECOND iterator created inside a step and never advanced: no observable effect
+      \* (whatever was exhausted before must stay exhausted, whatever is live must not notice)
+      [] s.k = "mk2"   -> Run(i, SetK(w, i, k1))
       [] s.k = "yfromit" -> Run(i, SetK(w, i, <<[t |-> "deleg", it |-> 2]>> \o k1))
       \* nested function literals: an immediately invoked closure  func() { r.E(id, a, b); a++ }()
       [] s.k = "iife"  -> LET w1 == Log(w, <<"e", s.id, Get(w, env, "a"), Get(w, env, "b")>>) IN
